@@ -34,6 +34,9 @@ class P(b1.Plugin):
         self.rng = rng
         kind = rng.choice(["struct", "enum", "enum"])
         plain = rng.random() < 0.15
+        # a third of the definitions draw every knob uniformly, so that rare conjunctions (named_field on a tuple
+        # variant + name disabled + method, ...) occur often enough
+        u = rng.random() < 0.35
         td = gen.make_skeleton(rng, i, kind, ["L", "L", "S", "F", "K"], max_fields=3)
         td.plain = plain
         params = []
@@ -41,32 +44,32 @@ class P(b1.Plugin):
         tname = (tdef, None)
         if not plain:
             r = rng.random()
-            if r < 0.25:
+            if r < (0.33 if u else 0.25):
                 tname = ("custom", "Ren%d" % i)
-            elif r < 0.45:
+            elif r < (0.5 if u else 0.45):
                 tname = ("disable", None) if kind == "struct" else ("default", None)
         for v in td.variants:
             named_default = (v.shape != "tuple") if kind == "struct" else (v.shape == "named")
             v.nf = None
             vname = ("default", None)
             if not plain:
-                if rng.random() < 0.35 and (kind == "struct" or v.shape != "unit"):
+                if rng.random() < (0.67 if u else 0.35) and (kind == "struct" or v.shape != "unit"):
                     v.nf = rng.random() < 0.5
                 if kind == "enum":
                     r = rng.random()
-                    if r < 0.25:
+                    if r < (0.33 if u else 0.25):
                         vname = ("custom", "V%s" % v.name)
-                    elif r < 0.4:
+                    elif r < (0.67 if u else 0.4):
                         vname = ("disable", None)
             named = named_default if v.nf is None else v.nf
             for f in v.fields:
                 req = {"ignore": False, "method": None, "rename": None}
                 if not plain:
                     r = rng.random()
-                    req["ignore"] = r < 0.25
-                    if 0.25 <= r < 0.5:
+                    req["ignore"] = r < (0.2 if u else 0.25)
+                    if (0.2 if u else 0.25) <= r < (0.6 if u else 0.5):
                         req["method"] = gen.METHOD_LEAVES.index(f.ty)
-                    if named and not req["ignore"] and rng.random() < 0.3:
+                    if named and not req["ignore"] and rng.random() < (0.45 if u else 0.3):
                         req["rename"] = "k_%s" % (f.name or "t")
                 f.req["Debug"] = req
             # refused when nothing would be shown: keep a name in that case
